@@ -234,6 +234,11 @@ def gen_config(ch, bias=None):
             layouts += [{'0': h, '1': bb, '-1': 2 * bb}, [h, bb, 0, -bb], [h, bb, -bb]]
         if bias.get('plain_blinds'):
             layouts = [[h, bb]]
+        if bias.get('post_heavy') and n >= 3:
+            # forced-bet stress: late-seated players' posts next to blinds that short stacks may be unable to cover
+            layouts = [[h, bb, -bb], [h, bb, 0, -bb], [h, bb, -bb, -bb], [0, bb, -bb], [bb, bb, -bb],
+                       {'0': h, '1': bb, '-1': -bb}, [h, bb, 2 * bb, -bb]]
+            layouts = [lay for lay in layouts if isinstance(lay, dict) or len(lay) <= n]
         lay = ch.choice('cfg.blinds', layouts)
         if isinstance(lay, list) and len(lay) > n:
             lay = lay[:2]
